@@ -134,6 +134,11 @@ func runC07(c *Ctx) {
 	c07TrueSource(c)
 	c07StampContent(c)
 	ruleHeaderFind(c, "stamp-content")
+	// what SetParam writes is what the printer emits: no cached text between decode and encode (shared with C01/C14)
+	rulePureCapture(c, "pure-capture")
+	// over TCP the true source is the connection the request arrived on: its table entry leaves by age alone (shared with C12)
+	c12Expiry(c, "hop-provenance")
+	c07ViaParamsAccepted(c, "stamp-content")
 	// (5) return path: the response hop prefers received/rport (same rule as C02.4)
 	if hf := c.fn("hop-provenance", hopRespFn); hf != nil {
 		c02HopProvenance(c, hf)
@@ -418,4 +423,28 @@ func (w *World) checkSetParam(c *Ctx, rule string, fn *ssa.Function, listRef, la
 		}
 	}
 	c.check(good, rule, label+"/append", w.ipos(ls), "otherwise one {name, value} is appended", "the fallback is not "+listRef+" = append("+listRef+", KeyValue{name, value})")
+}
+
+// c07ViaParamsAccepted: the sender's Via is stamped only if it can be decoded, and a failed SetReceived is not an
+// error for the relay: so the Via decoder must not reject a Via because of one of its ;parameters (any token, with or
+// without value, even empty). Structurally: the loop of parseViaParam that fills ViaParam.Params has no early exit.
+func c07ViaParamsAccepted(c *Ctx, rule string) {
+	w := c.w
+	f := c.fn(rule, "parseViaParam")
+	if f == nil {
+		return
+	}
+	var loop *rangeLoop
+	for _, st := range w.fieldStores(f, "ViaParam.Params") {
+		for _, rl := range rangeLoops(f) {
+			if rl.inLoop(st.Block()) {
+				loop = rl
+			}
+		}
+	}
+	if loop == nil {
+		c.undecided(rule, "parseViaParam/every-parameter-accepted", w.pos(f.Pos()), "the loop that fills ViaParam.Params was not found")
+		return
+	}
+	c.check(len(loop.earlyExits()) == 0, rule, "parseViaParam/every-parameter-accepted", w.ipos(loop.If), "no Via parameter makes the decoder give up", "parseViaParam can fail (or stop) because of a single ;parameter: the whole Via is then undecodable, the request is relayed without received/rport and its response cannot be routed back")
 }
